@@ -365,6 +365,12 @@ func QuantExp(t *rapid.T, ctx core.Ctx, x core.Dec) int32 {
 		return int32(rapid.IntRange(lo, hi).Draw(t, "qexp"))
 	}
 	nd := len(x.Coeff)
+	if gen.Pick(t, 6, "qatlimit") == 1 {
+		// the rescaled coefficient has exactly Precision digits, one fewer or one more: the
+		// boundary of "needs more than Precision digits" (for large precisions the rescaling
+		// then runs over more than a hundred places)
+		return clamp32(int64(x.Exp) + int64(nd-p+rapid.IntRange(-1, 1).Draw(t, "qal")))
+	}
 	d := rapid.IntRange(-p-3, nd+3).Draw(t, "qdelta")
 	return clamp32(int64(x.Exp) + int64(d))
 }
